@@ -12,6 +12,7 @@ mod corpus;
 mod fe;
 mod gen;
 mod hexu;
+mod mon;
 mod props;
 mod refm;
 mod rng;
@@ -30,6 +31,7 @@ fn selftests() -> Result<(), String> {
     refm::transport::selftest()?;
     refm::tlf::selftest()?;
     refm::sml::selftest()?;
+    mon::selftest()?;
     Ok(())
 }
 
@@ -87,9 +89,19 @@ fn real_main() -> i32 {
                     println!("BAD-CASE {}", e);
                     return 3;
                 }
-            } else if !props::run(&mut ctx) {
-                println!("UNKNOWN-PROPERTY {}", id);
-                return 3;
+            } else {
+                // a panic outside a monitored call is a harness error (inconclusive), never a verdict
+                match core::guarded(|| props::run(&mut ctx)) {
+                    Ok(true) => {}
+                    Ok(false) => {
+                        println!("UNKNOWN-PROPERTY {}", id);
+                        return 3;
+                    }
+                    Err(p) => {
+                        println!("HARNESS-ERROR {}", p);
+                        return 5;
+                    }
+                }
             }
             let json = ctx.rep.to_json(&id, shard, &profile);
             match out {
